@@ -211,3 +211,48 @@ def r6(R):
                         'storage although its result depends on revisions '
                         'that may live in the base: the operation sees only '
                         'one layer' % nm)
+
+
+@rule('C16.R7', 'the interval of a base revision that is current in the base '
+      'ends at the OLDEST revision in the changes storage (found by walking '
+      'back with loadBefore until there is none)', props=['C04'],
+      min_instances=1)
+def r7(R):
+    cls = R.prog.cls(DS)
+    f = R.method(cls, 'loadBefore')
+    R.instance('DemoStorage.loadBefore end-tid walk')
+    ok = False
+    for l in walk_local(f.node):
+        if not isinstance(l, ast.While) or not isinstance(l.test, ast.Name):
+            continue
+        t = l.test.id
+        # inside the loop: the bound is taken from the result, and the
+        # changes storage is asked again below that bound
+        bound = None
+        requery = False
+        for x in ast.walk(l):
+            if isinstance(x, ast.Assign) and isinstance(
+                    x.value, ast.Subscript) and isinstance(
+                        x.value.value, ast.Name) and \
+                    x.value.value.id == t and isinstance(
+                        x.targets[0], ast.Name):
+                bound = x.targets[0].id
+        for x in ast.walk(l):
+            if isinstance(x, ast.Assign) and isinstance(
+                    x.targets[0], ast.Name) and x.targets[0].id == t and \
+                    isinstance(x.value, ast.Call) and dotted(
+                        x.value.func) == ('self', 'changes', 'loadBefore') \
+                    and len(x.value.args) == 2 and isinstance(
+                        x.value.args[1], ast.Name) and \
+                    x.value.args[1].id == bound:
+                requery = True
+        if bound and requery:
+            ok = True
+    if not ok:
+        R.violation((f.module.relpath, f.qualname, 'end tid of base revision'),
+                    'loadBefore no longer walks the changes storage back to '
+                    'its oldest revision of the object to find where the '
+                    'base revision ends: with two or more revisions in the '
+                    'changes layer the base revision\'s interval overlaps '
+                    'them, and snapshots in between see two current '
+                    'revisions')
